@@ -94,7 +94,7 @@ pub fn run(outdir: &Path, tier: &str, seed: u64, shards: usize, replay: Option<S
         }
         // type, enum and member names that normalization = rust spells differently
         ps.extend(crate::c01dir::snake_case_types().into_iter().take(1));
-        for (i, mut p) in crate::c04dir::directed().into_iter().enumerate() {
+        for (i, mut p) in crate::c04dir::directed().into_iter().filter(|p| !p.tags.iter().any(|t| t == "directed-defaults-k14")).enumerate() {
             if i % 7 == 0 {
                 p.opts.response_derives = Some("Serialize".into());
                 if i % 14 == 0 {
